@@ -132,6 +132,26 @@ def run(ctx):
                                fsp.where, found=T.show(v, maxdepth=4))
                     ob.require(T.contains(v, lambda x: x == T.sec(T.pt(k), T.TRUE)),
                                '%s carries the compressed public key' % q.split('.')[-1], fsp.where)
+            # a PubKeyNode object can hold key bytes that are not a compressed public key: PubKeyNode.parse accepts a private
+            # payload (0x00 || k), the constructor an uncompressed key.  Whatever it holds, what it writes into an extended
+            # *public* key is the compressed encoding of the point the bytes parse to - or nothing (an error)
+            k = S('k', type='bytes', len=32)
+            for what, keybytes, must_have in (
+                    ('the 33-byte private form 0x00 || k (PubKeyNode.parse of an extended private key)', T.cat(T.const(b'\x00'), k), None),
+                    ('a 65-byte uncompressed public key', T.sec(S('P', type='point'), T.FALSE), T.sec(S('P', type='point'), T.TRUE))):
+                ev = Evaluator(p, be)
+                node = node_term(PUB, keybytes)
+                for q in ('bip32.PubKeyNode.serialize_public', 'bip32.PubKeyNode.extended_public_key'):
+                    v, f = ev.call_function(q, [node])
+                    for cs, leaf in normal_leaves(v):
+                        if must_have is None:
+                            ob.require(not T.occurs_outside(leaf, lambda x: x == k, lambda x: T.is_op(x, 'PT') or T.is_op(x, 'PARSEPUB')),
+                                       '%s of a PubKeyNode holding %s writes those bytes into the extended public key: the private scalar '
+                                       'is published under an xpub prefix' % (q.split('.')[-1], what), fsp.where, found=T.show(leaf, maxdepth=4))
+                        else:
+                            ob.require(not T.contains(leaf, lambda x: x == keybytes) or T.contains(leaf, lambda x: x == must_have),
+                                       '%s of a PubKeyNode holding %s writes the uncompressed bytes (a 110-byte payload) instead of '
+                                       'the compressed key' % (q.split('.')[-1], what), fsp.where, found=T.show(leaf, maxdepth=4))
     # ---------------------------------------------------------------- equality
     feq = p.get_function('bip32.PubKeyNode.__eq__')
     with ctx.obligation('C07.EQ', 'PubKeyNode.__eq__', None, feq.where) as ob:
